@@ -833,7 +833,9 @@ func (pg *Program) Explore(fnName string, pkgPath string, opt Options) (*Result,
 	res.Wall = time.Since(t0)
 	res.CoreHits, res.ModelHits = qc.CoreHits, qc.ModelHits
 	res.Exhaustive = res.BudgetHit == "" && res.Aborted == 0 && res.UnknownAs == 0
-	sort.Slice(res.Failures, func(i, j int) bool { return res.Failures[i].Site+res.Failures[i].Msg < res.Failures[j].Site+res.Failures[j].Msg })
+	sort.Slice(res.Failures, func(i, j int) bool {
+		return res.Failures[i].Site+res.Failures[i].Msg < res.Failures[j].Site+res.Failures[j].Msg
+	})
 	return res, nil
 }
 
